@@ -1124,3 +1124,203 @@ Proof.
     split; [reflexivity|]. split; [reflexivity|]. split; [reflexivity|].
     split; [apply Within_nil|]. lia.
 Qed.
+
+(** ** offsets recorded by the header walk are non-negative (any archive) *)
+Lemma from_file_offset d pos m p1 :
+  0 <= pos -> from_file d pos = Ok (Some (m, p1)) -> m_offset m = p1 /\ 0 <= p1.
+Proof.
+  intros Hpos. unfold from_file, f_read.
+  set (buf := takez FILE_HEADER_LENGTH (skipz pos d)).
+  pose proof (lenz_nonneg buf) as Hb.
+  destruct buf as [|c0 b0] eqn:Eb; [discriminate|]. rewrite <- Eb in *. clear Eb.
+  destruct (lenz buf <? FILE_HEADER_LENGTH); [discriminate|].
+  destruct (negb (str_eqb (sl buf sl_magic) FILE_MAGIC)); [discriminate|].
+  destruct (match split_on NAME_SEP (sl buf sl_name) with
+            | [] => Err IndexError | p :: _ => Ok (strip_by bytes_isspace p) end);
+    cbn [bind]; [|discriminate].
+  destruct (py_int (sl buf sl_mtime)); cbn [bind]; [|discriminate].
+  destruct (py_int (sl buf sl_owner)); cbn [bind]; [|discriminate].
+  destruct (py_int (sl buf sl_group)); cbn [bind]; [|discriminate].
+  destruct (py_int (sl buf sl_size)); cbn [bind]; [|discriminate].
+  intros [= <- <-]. cbn. split; [reflexivity|lia].
+Qed.
+
+Lemma seek_rel_nonneg k pos delta p : f_seek_rel k pos delta = Ok p -> 0 <= p.
+Proof.
+  unfold f_seek_rel. destruct (Z.ltb_spec (pos + delta) 0).
+  - destruct k; [intros [= <-]; lia|discriminate].
+  - intros [= <-]. lia.
+Qed.
+
+Lemma collect_offsets k d : forall fuel pos ms pos',
+  0 <= pos -> collect fuel k d pos = Ok (ms, pos') ->
+  Forall (fun m => 0 <= m_offset m) ms.
+Proof.
+  induction fuel as [|fuel IH]; intros pos ms pos' Hpos; [discriminate|].
+  cbn [collect]. destruct (from_file d pos) as [[[m p1]|]|e] eqn:Ef; cbn [bind].
+  - destruct (from_file_offset d pos m p1 Hpos Ef) as [Ho Hp1].
+    destruct (f_seek_rel k p1 _) as [p2|e] eqn:Es; cbn [bind]; [|discriminate].
+    apply seek_rel_nonneg in Es.
+    destruct (collect fuel k d p2) as [[ms2 pos2]|e] eqn:Ec; cbn [bind]; [|discriminate].
+    intros [= <- <-]. constructor; [lia|]. eapply IH; eassumption.
+  - intros [= <- <-]. constructor.
+  - discriminate.
+Qed.
+
+Lemma collect_members_offsets k d ms pos :
+  collect_members k d = Ok (ms, pos) -> Forall (fun m => 0 <= m_offset m) ms.
+Proof.
+  unfold collect_members, f_read.
+  destruct (str_eqb _ GLOBAL_HEADER); [|discriminate].
+  apply collect_offsets. pose proof (lenz_nonneg (takez GLOBAL_HEADER_LENGTH (skipz 0 d))). lia.
+Qed.
+
+(** ** the run-level statement *)
+Fixpoint run_state (a : arstate) (ops : list (nat * op)) : arstate :=
+  match ops with
+  | [] => a
+  | io :: r => run_state (fst (ar_step a io)) r
+  end.
+
+Definition step_dom (a : arstate) (io : nat * op) : bool :=
+  match nth_error (a_members a) (fst io) with
+  | Some (st, _) => op_dom_m st (snd io)
+  | None => true
+  end.
+
+(** Every call so far had a non-negative target (the property's quantifier). *)
+Fixpoint run_dom (a : arstate) (ops : list (nat * op)) : bool :=
+  match ops with
+  | [] => true
+  | io :: r => step_dom a io && run_dom (fst (ar_step a io)) r
+  end.
+
+Definition cur_of (a : arstate) (i : nat) : Z :=
+  match nth_error (a_members a) i with Some (st, _) => st_cur st | None => 0 end.
+
+Definition minv (m : member) (sm : mstate * option Z) : Prop :=
+  st_off (fst sm) = m_offset m /\ st_end (fst sm) = m_offset m + m_size m
+  /\ 0 <= m_offset m <= st_cur (fst sm).
+
+Definition ainv (d : str) (ms : list member) (a : arstate) : Prop :=
+  a_data a = d /\ Forall2 minv ms (a_members a).
+
+Lemma Forall2_nth_r {A B} (P : A -> B -> Prop) l1 l2 i y :
+  Forall2 P l1 l2 -> nth_error l2 i = Some y -> exists x, nth_error l1 i = Some x /\ P x y.
+Proof.
+  intros H. revert i. induction H as [|x0 y0 l1 l2 Hxy H IH]; intros [|i] Hi; simpl in *;
+    try discriminate.
+  - injection Hi as <-. eauto.
+  - now apply IH.
+Qed.
+
+Lemma Forall2_nth_l {A B} (P : A -> B -> Prop) l1 l2 i x :
+  Forall2 P l1 l2 -> nth_error l1 i = Some x -> exists y, nth_error l2 i = Some y /\ P x y.
+Proof.
+  intros H. revert i. induction H as [|x0 y0 l1 l2 Hxy H IH]; intros [|i] Hi; simpl in *;
+    try discriminate.
+  - injection Hi as <-. eauto.
+  - now apply IH.
+Qed.
+
+Lemma Forall2_set_r {A B} (P : A -> B -> Prop) l1 l2 i x y' :
+  Forall2 P l1 l2 -> nth_error l1 i = Some x -> P x y' -> Forall2 P l1 (list_set l2 i y').
+Proof.
+  intros H. revert i. induction H as [|x0 y0 l1 l2 Hxy H IH]; intros [|i] Hi Hp; simpl in *;
+    try discriminate.
+  - injection Hi as <-. now constructor.
+  - constructor; [assumption|now apply IH].
+Qed.
+
+Lemma ar_step_inv d ms a io :
+  ainv d ms a -> step_dom a io = true -> ainv d ms (fst (ar_step a io)).
+Proof.
+  intros [Hd HF] Hdom. destruct io as [i o]. unfold step_dom in Hdom. cbn [fst snd] in Hdom.
+  unfold ar_step. destruct (nth_error (a_members a) i) as [[st own]|] eqn:En; [|now split].
+  destruct (Forall2_nth_r _ _ _ _ _ HF En) as (m & Em & Ho & He & Hc). cbn [fst] in *.
+  set (fh := if a_byname a then own else Some (a_shared a)).
+  destruct (member_op_safe (a_kind a) (a_data a) fh st o) as (st' & fh' & r & E & Ho' & He' & _ & Hc');
+    [lia|].
+  rewrite E. specialize (Hc' Hdom).
+  assert (Hm : forall x, minv m (st', x)).
+  { intros x. unfold minv. cbn [fst]. lia. }
+  destruct (a_byname a); cbn [fst]; (split; [exact Hd|]); cbn [a_members];
+    eapply Forall2_set_r; eauto.
+Qed.
+
+Lemma run_inv d ms : forall ops a,
+  ainv d ms a -> run_dom a ops = true -> ainv d ms (run_state a ops).
+Proof.
+  induction ops as [|io ops IH]; intros a Ha Hdom; [exact Ha|].
+  cbn [run_dom] in Hdom. apply andb_true_iff in Hdom. destruct Hdom as [H1 H2].
+  cbn [run_state]. apply IH; [|assumption]. now apply ar_step_inv.
+Qed.
+
+Lemma open_archive_inv mode d ms a : open_archive mode d = Ok (ms, a) -> ainv d ms a.
+Proof.
+  unfold open_archive.
+  destruct (collect_members (kind_of_mode mode) d) as [[ms0 pos]|e] eqn:E; cbn [bind]; [|discriminate].
+  intros [= <- <-]. split; [reflexivity|]. cbn [a_members].
+  apply collect_members_offsets in E.
+  induction E as [|m ms0 Hm E IH]; cbn [map]; constructor; [|exact IH].
+  unfold minv. cbn. lia.
+Qed.
+
+(** no_foreign_byte: in any archive the reader opens, after any history of calls
+    with non-negative targets, interleaved in any way, the bytes any further call
+    returns on member [i] are the bytes of the archive at that member's current
+    position and lie inside [offset_i, offset_i + size_i). *)
+Theorem no_foreign_byte_run mode d ms a0 ops i o m :
+  open_archive mode d = Ok (ms, a0) ->
+  run_dom a0 ops = true ->
+  nth_error ms i = Some m ->
+  let a := run_state a0 ops in
+  within d (m_offset m) (m_offset m + m_size m) (cur_of a i)
+         (out_bytes (fst (fst (snd (ar_step a (i, o)))))) = true.
+Proof.
+  intros Hopen Hdom Hm a. apply within_iff.
+  assert (Ha : ainv d ms a) by (apply run_inv; [eapply open_archive_inv; eassumption|assumption]).
+  destruct Ha as [Hd HF].
+  destruct (Forall2_nth_l _ _ _ _ _ HF Hm) as ([st own] & En & Ho & He & Hc). cbn [fst] in *.
+  unfold cur_of, ar_step. rewrite En.
+  set (fh := if a_byname a then own else Some (a_shared a)).
+  destruct (member_op_safe (a_kind a) (a_data a) fh st o) as (st' & fh' & r & E & _ & _ & W & _);
+    [lia|].
+  rewrite E. rewrite Hd, Ho, He in W.
+  destruct (a_byname a); exact W.
+Qed.
+
+(** The same fact for one call, with the position of the file handle the member
+    finds universally quantified. *)
+Theorem no_foreign_byte_step k d fh st o :
+  (0 <=? st_off st) && (st_off st <=? st_cur st) = true ->
+  within d (st_off st) (st_end st) (st_cur st) (out_bytes (snd (member_op k d fh st o))) = true.
+Proof.
+  intros H. apply andb_true_iff in H. rewrite !Z.leb_le in H. apply within_iff.
+  destruct (member_op_safe k d fh st o) as (st' & fh' & r & E & _ & _ & W & _); [lia|].
+  now rewrite E.
+Qed.
+
+(** [run_state] is the state [ar_run] has reached: the observation of one more
+    call after [ops] is the one [ar_step] makes in [run_state a ops]. *)
+Lemma ar_run_snoc : forall ops a io,
+  ar_run a (ops ++ [io]) = ar_run a ops ++ [snd (ar_step (run_state a ops) io)].
+Proof.
+  induction ops as [|io0 ops IH]; intros a io.
+  - cbn [app ar_run run_state]. destruct (ar_step a io). reflexivity.
+  - cbn [app ar_run run_state]. destruct (ar_step a io0) as [a' r]. cbn [fst].
+    now rewrite IH.
+Qed.
+
+(** member_refines_bytesio, step level, with boolean hypotheses. *)
+Theorem member_step_refines k pre data post fh st b o :
+  rel pre data st b = true -> op_in_dom b o = true ->
+  let res := member_op k (pre ++ data ++ post) fh st o in
+  snd res = as_member_out o (snd (bio_op b o))
+  /\ rel pre data (fst (fst res)) (fst (bio_op b o)) = true
+  /\ m_tell (fst (fst res)) = b_pos (fst (bio_op b o)).
+Proof.
+  intros HR Hdom. apply rel_iff in HR.
+  destruct (member_op_sim k pre data post fh st b o HR Hdom) as (st' & fh' & E & HR' & Ht).
+  cbv zeta. rewrite E. cbn [fst snd]. split; [reflexivity|]. split; [now apply rel_iff|assumption].
+Qed.
